@@ -67,6 +67,21 @@ def gen_case(rng: random.Random, big=False) -> dict:
         if rng.random() < 0.1:
             del e["aux"]
         eps.append(e)
+    if eps and rng.random() < 0.3:
+        # near-twins: the same memory written again a few milliseconds / seconds later under an id that sorts AFTER the
+        # older one - the scores differ in the 10th..12th decimal and the higher (newer) one ranks first
+        for _ in range(rng.randint(1, 4)):
+            src = rng.choice(eps)
+            if not src.get("ts") or src.get("vec") != "enc":
+                continue
+            try:
+                t0 = dtm.datetime.fromisoformat(str(src["ts"]).replace("Z", "+00:00"))
+            except Exception:
+                continue
+            tw = copy.deepcopy(src)
+            tw["id"] = str(src["id"]) + rng.choice(["z", "~", "_b"])
+            tw["ts"] = (t0 + dtm.timedelta(milliseconds=rng.choice([3, 40, 1000, 2500]))).isoformat()
+            eps.append(tw)
     tiers = rng.sample(["exact_semantic", "cluster_semantic", "archive"], rng.randint(1, 3))
     if rng.random() < 0.1:
         tiers.insert(rng.randint(0, len(tiers)), "bogus_tier")
